@@ -74,7 +74,13 @@ class Model:
         for k in self.mro(cls):
             if self.defines_name(k, name):
                 # the attribute found is k's; for properties the accessor must exist on that property
-                return k if self.defines(k, key) is not None else None
+                if self.defines(k, key) is not None:
+                    return k
+                if any(m["name"] == name and m.get("ext_of") for m in self.classes[k].get("members", [])):
+                    # k derived its property from a base's property object (@Base.name.setter): the accessors it does
+                    # not define itself are the base's
+                    continue
+                return None
         return None
 
     def copy_shadow(self, cls: str, key: str) -> Optional[str]:
